@@ -27,7 +27,7 @@ def run_ground(table, reg, name, timeout_ms=None):
     return res
 
 
-def run_native(rec, timeout=300):
+def run_native(rec, timeout=None):
     """Run the replay driver on ``rec`` under the repository's interpreter against the tree under test (BOUNDED
     stand-ins and witnesses of known findings).  Returns the driver's JSON result, or raises."""
     import json
@@ -40,12 +40,19 @@ def run_native(rec, timeout=300):
     os.close(fd)
     env = dict(os.environ)
     env["PYTHONPATH"] = os.path.join(os.environ.get("PYVC_REPO", "/repo"), "src") + os.pathsep + verif
+    if timeout is None:
+        timeout = 1800 if os.environ.get("PYVC_TIER") == "thorough" else 400
     try:
         p = subprocess.run([os.environ.get("PYVC_NATIVE_PY", "/venv/bin/python"), "-W", "ignore",
                             os.path.join(verif, "replay", "driver.py"), path], capture_output=True, text=True, env=env, timeout=timeout)
         lines = [l for l in p.stdout.strip().splitlines() if l.startswith("{")]
         if not lines:
             raise RuntimeError("replay driver gave no result: %s" % (p.stderr or p.stdout)[-300:])
-        return json.loads(lines[-1])
+        res = json.loads(lines[-1])
+        note = str(res.get("note") or "")
+        if note.startswith("replayer crashed") or note.startswith("no replayer"):
+            # never let a broken harness look like "nothing found"
+            raise RuntimeError("native harness failed: %s %s" % (note, str(res.get("trace") or "")[-300:]))
+        return res
     finally:
         os.unlink(path)
